@@ -51,6 +51,11 @@ class Sim:
                 r = c.deferred_results.get("get_code")
                 if r and r[0] and r[0][0][0] == "ok":
                     return r[0][0][1]
+                # the environment (the human reading the code out) learns it as soon as the wormhole has it
+                obs = getattr(c.w, "_code_observer", None)
+                res = getattr(obs, "_result", None)
+                if isinstance(res, str):
+                    return res
         return None
 
     def code_for(self, i):
@@ -99,7 +104,7 @@ class Sim:
                 acts.append(("close", X))
             if self.getters and not c.delegated:
                 for what in ("get_code", "get_unverified_key", "get_verifier", "get_versions", "get_message"):
-                    if self.got[i].get(what, 0) < (2 if what == "get_message" else 1):
+                    if self.got[i].get(what, 0) < (3 if what == "get_message" else 1):
                         acts.append(("get", X, what))
             if c.svc.stop_d is not None:
                 acts.append(("stopped", X))
